@@ -111,7 +111,15 @@ Proof.
   unfold guard0. destruct u; try reflexivity. destruct (starts_neg (shape x)); [|reflexivity].
   cbn [pexp]. apply erase_parens.
 Qed.
-Ltac congr := repeat first [ reflexivity | assumption | apply obs_app_congr | apply erase_cons ].
+(* the brackets of an index or a key, with or without the blanks that keep a long string away from them *)
+Lemma obs_brk b xs : obs (brk b xs) = obs (kw "[" :: xs ++ [kw "]"]).
+Proof.
+  unfold brk. destruct b; [|reflexivity]. apply erase_cons. unfold sp. rewrite obs_ws by reflexivity. rewrite !obs_app. f_equal.
+  change [TWs [SP]; kw "]"] with (TWs [SP] :: [kw "]"]). rewrite obs_ws by reflexivity. reflexivity.
+Qed.
+Lemma obs_brk_congr b b' xs xs' : obs xs = obs xs' -> obs (brk b xs) = obs (brk b' xs').
+Proof. intros H. rewrite !obs_brk. apply erase_cons. rewrite !obs_app, H. reflexivity. Qed.
+Ltac congr := repeat first [ reflexivity | assumption | apply obs_app_congr | apply erase_cons | apply obs_brk_congr ].
 (* parentheses around call arguments, and the blank in front of them, are not observed *)
 Lemma erase_pargs b xs : obs (pargs c0 b xs) = obs xs.
 Proof.
@@ -633,11 +641,13 @@ Lemma census_pargs b xs : census (pargs c b xs) = census xs.
 Proof.
   unfold pargs, gap_call, gap_sugar. destruct b; [reflexivity|]. destruct (CallForm.space_call (space0 c)); cbn [app]; rewrite ?census_sp, census_kw, census_app; cbn [census norm_com]; apply app_nil_r.
 Qed.
+Lemma census_brk b xs : census (brk b xs) = census xs.
+Proof. unfold brk. destruct b; [rewrite census_kw, census_sp, census_app|rewrite census_kw, census_app]; cbn [census norm_com]; apply app_nil_r. Qed.
 Lemma census_pexp : forall e d, census (pexp d e) = lc (coms_x e).
 Proof.
   induction e using exp_ind'; intros d; cbn [Fmt0.pexp coms_x]; try reflexivity.
   - rewrite census_app, IHe. cbn [census norm_com]. apply app_nil_r.
-  - rewrite census_app, IHe1, census_kw, census_app, IHe2, lc_app. cbn [census norm_com]. rewrite app_nil_r. reflexivity.
+  - rewrite census_app, IHe1, census_brk, IHe2, lc_app. reflexivity.
   - rewrite census_app, IHe, census_pargs, census_commas, (census_map_pexp d args H), lc_app. reflexivity.
   - rewrite census_app, IHe, census_kw, census_ident, census_pargs, census_commas, (census_map_pexp d args H), lc_app. reflexivity.
   - rewrite census_app, IHe. destruct u; reflexivity.
@@ -646,7 +656,7 @@ Proof.
   - destruct fs as [|f fs]; [reflexivity|]. rewrite census_kw, census_sp, census_app, census_commas, (census_map_pexp d (f :: fs) H). cbn [census norm_com]. apply app_nil_r.
   - apply IHe.
   - rewrite census_ident, census_sp, census_kw, census_sp. apply IHe.
-  - rewrite census_kw, census_app, IHe1, census_kw, census_sp, census_kw, census_sp, IHe2, lc_app. reflexivity.
+  - rewrite census_app, census_brk, IHe1, census_sp, census_kw, census_sp, IHe2, lc_app. reflexivity.
   - (* a table over several lines: line by line *)
     destruct fs as [|f fs]; [reflexivity|].
     match goal with |- census ?X = lc ?Y => change X with (kw "{" :: eol c :: tlines c d (f :: fs) ++ indent c d ++ [kw "}"]); change Y with (List.concat (map cline (f :: fs))) end.
@@ -965,11 +975,17 @@ Proof.
 Qed.
 Lemma crf_Forall l : forallb crf l = true -> Forall (fun e => crf e = true) l.
 Proof. intros H. apply Forall_forall. intros x Hx. apply (proj1 (forallb_forall crf l) H x Hx). Qed.
+Lemma inline_brk b xs : inline xs -> inline (brk b xs).
+Proof.
+  intros H b0. unfold brk. destruct b.
+  - rewrite run_kw, run_sp, run_app, H, run_sp. reflexivity.
+  - rewrite run_kw, run_app, H. reflexivity.
+Qed.
 Lemma inline_pexp : forall e, crf e = true -> forall d, inline (pexp d e).
 Proof.
   induction e using exp_ind'; intros C d b0; cbn [crf] in C; cbn [Fmt0.pexp]; try reflexivity.
   - rewrite run_app, IHe by exact C. reflexivity.
-  - apply andb_true_iff in C. destruct C as [C1 C2]. rewrite run_app, IHe1, run_kw, run_app, IHe2 by assumption. reflexivity.
+  - apply andb_true_iff in C. destruct C as [C1 C2]. rewrite run_app, IHe1 by assumption. apply (inline_brk _ _ (IHe2 C2 d)).
   - apply andb_true_iff in C. destruct C as [C1 C2]. rewrite run_app, IHe by exact C1. apply run_pargs. apply Forall_map. apply crf_Forall in C2.
     rewrite Forall_forall in *. intros a Ha. apply H; [exact Ha|apply C2; exact Ha].
   - apply andb_true_iff in C. destruct C as [C1 C2]. rewrite run_app, IHe, run_kw by exact C1. rewrite run_plain by reflexivity. apply run_pargs. apply Forall_map. apply crf_Forall in C2.
@@ -982,7 +998,7 @@ Proof.
     rewrite Forall_forall in *. intros a Ha. apply H; [exact Ha|apply C; exact Ha].
   - apply IHe. exact C.
   - rewrite run_plain by reflexivity. rewrite run_sp, run_kw, run_sp. apply IHe. exact C.
-  - apply andb_true_iff in C. destruct C as [C1 C2]. rewrite run_kw, run_app, IHe1, run_kw, run_sp, run_kw, run_sp by exact C1. apply IHe2. exact C2.
+  - apply andb_true_iff in C. destruct C as [C1 C2]. rewrite run_app, (inline_brk _ _ (IHe1 C1 d)), run_sp, run_kw, run_sp. apply IHe2. exact C2.
   - (* a table over several lines: every line starts with the indentation of its level and ends with a line break *)
     destruct fs as [|f fs]; [reflexivity|].
     change (run b0 (kw "{" :: eol c :: tlines c d (f :: fs) ++ indent c d ++ [kw "}"]) = Some false).
@@ -1234,6 +1250,8 @@ Proof.
   - change (calls_okl m (map (cexp m false) fs) = true). apply calls_okl_map. exact H.
   - change (calls_okl m (map (cexp m false) fs) = true). apply calls_okl_map. exact H.
 Qed.
+Lemma bstr_cexp m : forall e o, bstr (cexp m o e) = bstr e.
+Proof. induction e; intros o; cbn [cexp bstr]; try reflexivity; [apply IHe1|apply IHe]. Qed.
 (* under Input the pass prints every call as it was written *)
 Theorem cexp_input_prints_the_same c : forall e o d, pexp c d (cexp CallForm.Input o e) = pexp c d e.
 Proof.
@@ -1242,7 +1260,7 @@ Proof.
   assert (F : forall o sg args, newsg CallForm.Input o sg args && sugarable (map (cexp CallForm.Input false) args) = sg && sugarable args).
   { intros o sg args. rewrite sugarable_map_cexp. unfold newsg. rewrite CallForm.input_keeps_form.
     destruct sg; [|reflexivity]. destruct args as [|x [|y r]]; try reflexivity; destruct x; reflexivity. }
-  induction e using exp_ind'; intros o d; cbn [cexp]; try reflexivity; try (cbn [pexp]; rewrite ?IHe, ?IHe1, ?IHe2; reflexivity).
+  induction e using exp_ind'; intros o d; cbn [cexp]; try reflexivity; try (cbn [pexp]; rewrite ?bstr_cexp, ?IHe, ?IHe1, ?IHe2; reflexivity).
   - cbn [pexp]. rewrite IHe, F, (M args d H). reflexivity.
   - cbn [pexp]. rewrite IHe, F, (M args d H). reflexivity.
   - destruct fs as [|f fs]; [reflexivity|]. pose proof (M (f :: fs) d H) as Q. cbn [map] in Q. cbn [map pexp]. rewrite Q. reflexivity.
